@@ -46,3 +46,10 @@ Print Assumptions C05_all_sites_fail_refuted.
 (* hypotheses are satisfiable: a well-typed program and a mutant of it *)
 Example C05_example_mutant : wt ex_prog = true /\ exists p', mut ROperand ex_pos_operand ex_prog = Some p' /\ wt p' = false.
 Proof. split; [vm_compute; reflexivity|]. eexists. split; vm_compute; reflexivity. Qed.
+
+(* strings as computed values: a wrong-typed literal in any operand place of any string builtin (char_at, str_concat,
+   int_to_string, str_length, str_substring, + on strings) gives a program the reference checker refuses (the real checker
+   accepts eight of the ten: finding c05:string-builtin-arg-unchecked) *)
+Example C05_string_operand_mutants : wt ex_strp = true /\
+  forallb (fun pos => match mut ROperand pos ex_strp with Some p' => negb (wt p') | None => false end) ex_strp_positions = true.
+Proof. split; vm_compute; reflexivity. Qed.
